@@ -203,6 +203,53 @@ fn textdiff_report<'a, T: DiffableStr + ?Sized>(d: &'a TextDiff<'a, 'a, 'a, T>, 
             )
         })
         .collect();
+    // the same iterators advanced by next() a few times and then finished by internal iteration (for_each / fold /
+    // count / last go through Iterator::fold, which an iterator may override) must yield the rest of the list
+    let fmt1 = |c: similar::Change<&'a T>| {
+        format!("{}:{}:{}:{}", fmt_tag(c.tag()), fmt_opt(c.old_index()), fmt_opt(c.new_index()), hex(c.value().as_bytes()))
+    };
+    let mut internal_ok = true;
+    let nchg = changes.len();
+    for k in [0usize, 1, 2, nchg / 2, nchg.saturating_sub(1)] {
+        if k > nchg {
+            continue;
+        }
+        let mut it = d.iter_all_changes();
+        for _ in 0..k {
+            it.next();
+        }
+        let mut rest: Vec<String> = Vec::new();
+        it.for_each(|c| rest.push(fmt1(c)));
+        internal_ok &= rest[..] == changes[k..];
+        internal_ok &= d.iter_all_changes().skip(k).count() == nchg - k;
+        let mut it = d.iter_all_changes();
+        for _ in 0..k {
+            it.next();
+        }
+        internal_ok &= it.last().map(fmt1) == if k < nchg { changes.last().cloned() } else { None };
+        let mut it = d.iter_all_changes();
+        for _ in 0..k {
+            it.next();
+        }
+        internal_ok &= it.fold(0usize, |a, c| a + c.value().as_bytes().len() + 1)
+            == changes[k..].iter().map(|s| (s.len() - s.rfind(':').unwrap() - 1) / 2 + 1).sum::<usize>();
+    }
+    for op in d.ops() {
+        let all: Vec<String> = d.iter_changes(op).map(fmt1).collect();
+        for k in [1usize, all.len() / 2] {
+            if k > all.len() {
+                continue;
+            }
+            let mut it = d.iter_changes(op);
+            for _ in 0..k {
+                it.next();
+            }
+            let mut rest: Vec<String> = Vec::new();
+            it.for_each(|c| rest.push(fmt1(c)));
+            internal_ok &= rest[..] == all[k..];
+            internal_ok &= d.iter_changes(op).skip(k).count() == all.len() - k;
+        }
+    }
     let direct = similar::capture_diff_slices(d.algorithm(), d.old_slices(), d.new_slices());
     format!(
         "ops={} direct={} nt={} alg={} probes={} ratio={} otoks={} ntoks={} changes={} perop_same={}",
@@ -215,7 +262,7 @@ fn textdiff_report<'a, T: DiffableStr + ?Sized>(d: &'a TextDiff<'a, 'a, 'a, T>, 
         bounds_of(old, d.old_slices()),
         bounds_of(new, d.new_slices()),
         join(changes.clone(), ","),
-        if changes == per_op { 1 } else { 0 }
+        if changes == per_op && internal_ok { 1 } else { 0 }
     )
 }
 
